@@ -115,6 +115,17 @@ fn c09_cmr_replay() {
                 if n.cmr().as_ref() != &want[..] {
                     fails.push(format!("node built for {:?} has root {}, the tagged tree hashes to {:02x?}", s, n.cmr(), want));
                 }
+                // conversions keep the root: construction -> commitment -> (with the attached witnesses) redemption
+                if let Ok(c) = n.finalize_types_non_program() {
+                    if c.cmr() != n.cmr() {
+                        fails.push(format!("{:?}: the commitment-time node has root {}, the construction-time node {}", s, c.cmr(), n.cmr()));
+                    }
+                }
+                if let Ok(r) = n.finalize_unpruned() {
+                    if r.cmr() != n.cmr() {
+                        fails.push(format!("{:?}: the redemption-time node has root {}, the construction-time node {}", s, r.cmr(), n.cmr()));
+                    }
+                }
             }
             if let Some(c) = build::<ConstructibleCmr>(&ctx, &s) {
                 if c.cmr.as_ref() != &want[..] {
